@@ -284,6 +284,8 @@ def r5(model, rep):
             ok = False
             rep.violation("R5", "diagram._nice_float", "%s:%d" % (rel, ret.lineno), "band '%s': %s" % (prefix or "(none)", pr), "band %s: %s" % (prefix, pr[:40]))
         prev = T
+    if not seen:
+        raise AnalysisError("_nice_float: no prefix band recognised (the bands are not an if / elif chain on the exponent)")
     if seen != ["p", "n", "u", "m", "", "k", "M"]:
         ok = False
         rep.violation("R5", "diagram._nice_float", where, "prefix bands are %s" % seen, "bands %s" % seen)
